@@ -109,7 +109,14 @@ pub fn layout_oracles(key: Option<usize>, lay: &Layout, built: &Built, real_debu
             bad("C10", "a stage or group without systems".into());
         }
     }
-    let pos: BTreeMap<usize, (usize, usize, usize)> = staged.iter().map(|t| (*t, lay.pos(*t).unwrap())).collect();
+    let mut pos: BTreeMap<usize, (usize, usize, usize)> = BTreeMap::new();
+    for (s, st) in lay.stages.iter().enumerate() {
+        for (g, gr) in st.iter().enumerate() {
+            for (k, t) in gr.iter().enumerate() {
+                pos.insert(*t, (s, g, k));
+            }
+        }
+    }
     let regidx: BTreeMap<usize, usize> = order.iter().enumerate().map(|(i, t)| (*t, i)).collect();
     // --- C01 / C07: no conflicting pair in different groups of one stage
     for (s, st) in lay.stages.iter().enumerate() {
@@ -148,24 +155,47 @@ pub fn layout_oracles(key: Option<usize>, lay: &Layout, built: &Built, real_debu
         }
     }
     // --- C03: barriers
-    for a in &staged {
-        for b in &staged {
-            if info(a).epoch < info(b).epoch && pos[a].0 >= pos[b].0 {
-                bad("C03", format!("{} was registered before a barrier and {} after it, but their stages are {} and {}", a, b, pos[a].0, pos[b].0));
+    // (`staged` is in registration order, epochs never decrease along it: the latest stage reached by
+    // the systems of all earlier epochs is a running maximum)
+    let mut latest_before: BTreeMap<usize, (usize, usize)> = BTreeMap::new(); // epoch -> (latest stage, its system) over all earlier epochs
+    {
+        let mut run: Option<(usize, usize)> = None; // over epochs < current
+        let mut cur: Option<(usize, usize)> = None; // within the current epoch
+        let mut cur_epoch = usize::MAX;
+        for t in &staged {
+            let e = info(t).epoch;
+            if e != cur_epoch {
+                for c in cur.take() {
+                    if run.map(|r| c.0 > r.0).unwrap_or(true) {
+                        run = Some(c);
+                    }
+                }
+                cur_epoch = e;
+                if let Some(r) = run {
+                    latest_before.insert(e, r);
+                }
+            }
+            if cur.map(|c| pos[t].0 > c.0).unwrap_or(true) {
+                cur = Some((pos[t].0, *t));
+            }
+        }
+    }
+    for b in &staged {
+        if let Some((sa, a)) = latest_before.get(&info(b).epoch) {
+            if *sa >= pos[b].0 {
+                bad("C03", format!("{} was registered before a barrier and {} after it, but their stages are {} and {}", a, b, sa, pos[b].0));
             }
         }
     }
     // --- C10: every skipped stage is justified
+    let mut depnames: BTreeMap<String, usize> = BTreeMap::new(); // names of the staged systems registered before x
     for x in &staged {
         let ix = info(x);
-        let first = staged.iter().filter(|a| info(a).epoch < ix.epoch).map(|a| pos[a].0 + 1).max().unwrap_or(0);
-        let mut depnames: BTreeMap<String, usize> = BTreeMap::new();
-        for t in &staged {
-            if regidx[t] < regidx[x] && !info(t).name.is_empty() {
-                depnames.insert(info(t).name.clone(), *t);
-            }
-        }
+        let first = latest_before.get(&ix.epoch).map(|(s, _)| s + 1).unwrap_or(0);
         let deps: Vec<usize> = ix.deps.iter().filter_map(|d| depnames.get(d).cloned()).collect();
+        if !ix.name.is_empty() {
+            depnames.insert(ix.name.clone(), *x);
+        }
         for s in first..pos[x].0 {
             let conflict = lay.stages[s].iter().flatten().any(|a| regidx[a] < regidx[x] && conflicts(ix, info(a)));
             let dep = deps.iter().any(|a| pos[a].0 >= s);
@@ -291,6 +321,22 @@ pub fn window_oracles(log: &[Event], built: &Built, lay: &Layout, mode: &str) ->
                         i.push(t);
                         finished.contains(&i)
                     };
+                    // inner dispatch k of a batch begins only when inner dispatch k-1 is over: every
+                    // placed system of the batch, thread-local ones included, has finished it
+                    if prefix.len() >= 2 && prefix[prefix.len() - 1] > 0 {
+                        let mut prev = prefix.to_vec();
+                        let last = prev.len() - 1;
+                        prev[last] -= 1;
+                        for t in &sibs {
+                            let i = &built.infos[t];
+                            let mut inst = prev.clone();
+                            inst.push(*t);
+                            if i.placed && !finished.contains(&inst) {
+                                v.push(("C07".into(), format!("event {}: {} (inner dispatch {}) begins to fetch although {} has not finished the inner dispatch before it", k, e.inst_str(), prefix[last], t)));
+                                break;
+                            }
+                        }
+                    }
                     // dependencies
                     let mut names: BTreeMap<String, usize> = BTreeMap::new();
                     for t in &sibs {
